@@ -196,6 +196,14 @@ def check_C04(A: Analysis, tier):
                 ra.fail(site_func(ev), site_text(ev), "an object file is removed by a function that is not one of the three "
                         "reference-guarded deleters", site_loc(A, ev))
                 continue
+            if sf == Q("_delete_object_only") and it.entry != Q("delete_if_invalid_object"):
+                # its guard - "no cid list (yet)" - is also true of content a concurrent store_object has just
+                # stored (or found) and is about to tag: only the caller who stored the object without a pid and
+                # found it invalid may decide that nothing will ever refer to it
+                ra.fail(site_func(ev), site_text(ev), f"_delete_object_only runs as part of {it.entry.split('.')[-1]}: the object of another, not yet tagged, "
+                        "store of the same content is removed (the absence of a cid list does not show that the object is nobody's)",
+                        site_loc(A, ev), {"entry": it.entry})
+                continue
             if sf == Q("_move_and_get_checksums"):
                 if not ev.handling:
                     ra.fail(sf, site_text(ev), "object removal in _move_and_get_checksums outside the failed-move handler",
@@ -1021,8 +1029,13 @@ def check_C15(A: Analysis, tier):
     rb = Rule("C15", "C15.b", "_shard cuts token i as [i*width, (i+1)*width) for i in range(depth) and the remainder "
               "from depth*width to the end; empty strings dropped", floor=2)
     sh = A.p.func(Q("_shard"))
-    slices = [n for n in ast.walk(sh.node) if isinstance(n, ast.Subscript) and isinstance(n.slice, ast.Slice)]
-    comps = [n for n in ast.walk(sh.node) if isinstance(n, ast.ListComp) and any(isinstance(x, ast.Subscript) and isinstance(x.slice, ast.Slice) for x in ast.walk(n.elt))]
+    rets = [st_ for st_ in sh.node.body if isinstance(st_, ast.Return) and st_.value is not None]
+    if len(rets) != 1:
+        raise AnalysisError(f"_shard has {len(rets)} top-level return statements; the tiling rule reads one returned expression")
+    from .rules_common import expand_locals
+    shx = expand_locals(sh.node, rets[0].value)    # intermediate locals inlined: what is returned, as one expression
+    slices = [n for n in ast.walk(shx) if isinstance(n, ast.Subscript) and isinstance(n.slice, ast.Slice)]
+    comps = [n for n in ast.walk(shx) if isinstance(n, ast.ListComp) and any(isinstance(x, ast.Subscript) and isinstance(x.slice, ast.Slice) for x in ast.walk(n.elt))]
     if len(slices) != 2 or len(comps) != 1:
         raise AnalysisError("_shard is not in the slice/comprehension form the tiling rule reads "
                             f"({len(slices)} slices, {len(comps)} comprehensions)")
@@ -1050,7 +1063,7 @@ def check_C15(A: Analysis, tier):
     if norm(tok.value) != norm(rem.value) or norm(tok.value) != sh.node.args.args[1].arg:
         rb.fail(sh, tok.value, "tokens and remainder are not cut from the digest argument", A.p.loc(sh, tok))
     # tokens followed by remainder, compacted
-    add = [n for n in ast.walk(sh.node) if isinstance(n, ast.BinOp) and isinstance(n.op, ast.Add) and any(comp is x for x in ast.walk(n.left))]
+    add = [n for n in ast.walk(shx) if isinstance(n, ast.BinOp) and isinstance(n.op, ast.Add) and any(comp is x for x in ast.walk(n.left))]
     if not add or not any(rem is x for x in ast.walk(add[0].right)):
         rb.fail(sh, comp, "sharded path is not `tokens + [remainder]` in that order", A.p.loc(sh, comp))
     rules.append(rb)
@@ -1152,6 +1165,16 @@ def check_C15(A: Analysis, tier):
         if not keys:
             rd.fail(fq, "yaml keys", f"{fq} no longer reads any configuration key (anchor lost)", A.p.loc(f, f.node))
     rules.append(rd)
+    # the depth, width, algorithm and default namespace an instance works with are the *supplied* ones; they are the
+    # store's own only because the constructor established equality with hashstore.yaml (C14.a)
+    from .rules_data import check_C14
+    c14 = [r for r in check_C14(A, "quick") if r.rid == "C14.a"][0]
+    rf15 = Rule("C15", "C15.f", "the layout parameters in use (depth, width, algorithm, default metadata namespace) are those pinned in hashstore.yaml: "
+                "the constructor accepts supplied values only when equal to the stored ones (shared with C14.a)", floor=c14.floor)
+    rf15.instances, rf15.nontrivial, rf15.obligations = list(c14.instances), set(c14.nontrivial), c14.obligations
+    for f in c14.findings:
+        rf15.fail(f.func, f.construct, f.message, f.loc, f.detail)
+    rules.append(rf15)
     return rules
 
 
